@@ -7,7 +7,7 @@ import props, manifest_meta as mm
 ids = [json.loads(l)["id"] for l in open(os.path.join(ROOT, "properties.jsonl"))]
 checks, na = [], []
 for pid in ids:
-    if pid in props.PROPS and pid in mm.CLAIMS:
+    if pid in props.PROPS and pid in mm.CLAIMS and pid not in getattr(mm, 'PENDING', ()):
         c = mm.CLAIMS[pid]
         checks.append({
             "property_id": pid,
